@@ -185,6 +185,8 @@ def parseItems (anc : List Name) (items : List BItem) (st : PS) (desc : List Nam
     let st := { st with hier := st.hier.registerLeaf n anc, leaves := st.leaves ++ [n] }
     parseItems anc rest (st.pushStorage n data) (desc ++ [n]) ini
   | .sup n data body :: rest =>
+    if st.seen.contains n then .error .duplicateState else
+    let st := { st with seen := n :: st.seen }
     let st := st.pushStorage n data
     match parseSuper n anc body st with
     | .error e => .error e
@@ -211,6 +213,8 @@ end
 def parseStates : List TItem → PS → Except Err PS
   | [], st => .ok st
   | .sup n data body :: rest, st =>
+    if st.seen.contains n then .error .duplicateState else
+    let st := { st with seen := n :: st.seen }
     let st := st.pushStorage n data
     match parseSuper n [] body st with
     | .error e => .error e
